@@ -190,6 +190,7 @@ func Run(args []string) int {
 	exh := fs.Int("exhaustive", 0, "exhaustive n=2,3 with weights <= this bound (0 = off)")
 	batch := fs.Int("batch", 200, "groups per Generate call")
 	corpus := fs.String("corpus", "", "file with fixed cases: one `w1,w2,..` per line")
+	e2e := fs.Int("e2e", 0, "number of route rules sent through the whole pipeline (0 = off)")
 	if err := fs.Parse(args); err != nil {
 		return 2
 	}
@@ -212,6 +213,9 @@ func Run(args []string) int {
 		all = append(all, exhaustiveCases(*exh)...)
 	}
 	weightCases(out, r)
+	if *e2e > 0 {
+		runE2E(out, rng.New(*seed+77), *e2e)
+	}
 	// decorate sequentially (one random stream), generate the batches in parallel, print in order
 	type result struct {
 		lines     []string
